@@ -302,3 +302,44 @@ def reinit (mk : List α → α) (s : PR α) (name : Option String) (asList moda
       | [] => s1                                         -- 209-213 (`toklist is self`)
 
 end PP.PR
+
+/-! ### copies, pickling, concatenation (C11) — value level
+    At the value level a copy is the same value; what is copied and what is shared is the subject of
+    `PPModel/Mod/PRHeap.lean`. -/
+namespace PP.PR
+variable {α : Type}
+
+/-- results.py:573-585 `copy()`: `ParseResults(self._toklist)` (new list, `__init__` sets `_modal = True`),
+    `_tokdict.copy()`, `_all_names |=`, `_name` -/
+def copyV (s : PR α) : PR α :=
+  { toks := s.toks, dict := s.dict, all := ([] : List String) ++ s.all.filter (fun n => n ∉ ([] : List String)),
+    name := s.name, modal := true }
+
+/-- results.py:758-767 `__getstate__` -/
+def getstate (s : PR α) : List α × (PyDict.Dict (List (α × Int)) × Option Unit × List String × Option String) :=
+  (s.toks, (s.dict, none, s.all, s.name))
+
+/-- results.py:774 `__getnewargs__` + 153-172 `__new__(cls, toklist, name)` (no `__init__` in the protocol) -/
+def newFromArgs (s : PR α) : PR α := { toks := s.toks, dict := [], all := [], name := none, modal := true }
+
+/-- results.py:769-772 `__setstate__` -/
+def setstate (_ : PR α)
+    (st : List α × (PyDict.Dict (List (α × Int)) × Option Unit × List String × Option String)) : PR α :=
+  { toks := st.1, dict := st.2.1, all := st.2.2.2.1, name := st.2.2.2.2, modal := true }
+
+/-- `copy.copy(s)` / `pickle.loads(pickle.dumps(s))` as far as the value goes:
+    `cls.__new__(cls, *s.__getnewargs__())` then `__setstate__(s.__getstate__())` -/
+def pickleRT (s : PR α) : PR α := setstate (newFromArgs s) (getstate s)
+
+/-- results.py:449-452 `__add__` -/
+def addV (a b : PR α) : PR α := iadd (copyV a) b
+
+/-- results.py:476-482 `sum([x, y, ...])`: `0 + x` is `x.copy()`, then `+` from the left -/
+def sumV : List (PR α) → Option (PR α)
+  | [] => none
+  | x :: rest => some (rest.foldl addV (copyV x))
+
+/-- `ParseResults([])` -/
+def emptyPR : PR α := { toks := [], dict := [], all := [] }
+
+end PP.PR
